@@ -63,7 +63,7 @@ fn c13_filter_silence_stays_silent() {
 }
 
 // @h prop=C14,C13 tier=quick kind=main timeout=600
-// @bounds fully wet, all four modes; input and integrator state small integers |v| <= 4 (mono); one frame: compared with the Simper/Cytomic trapezoidal SVF update written out in f64-derived f32 constants in the same operation order
+// @bounds fully wet, all four modes; input and integrator state small integers |v| <= 4 (mono); one frame: compared with the Simper/Cytomic trapezoidal SVF update written out with the same constants (agreement within 1e-4)
 // @funcs Filter::process
 // @assume f64::tan replaced by its native value
 // @catches a changed coefficient formula (a1 = 1/(1+g(g+k)), a2 = g a1, a3 = g a2, k = 2 - 1.9 r), update order of the two integrators, or mode output taps (low = v2, band = v1, high = x - k v1 - v2, notch = x - k v1)
@@ -86,8 +86,10 @@ fn c14_filter_step_matches_cited_svf() {
 	let v1 = s1 * (a1 as f32) + v3 * (a2 as f32);
 	let v2 = s2 + s1 * (a2 as f32) + v3 * (a3 as f32);
 	let out = match mode { FilterMode::LowPass => v2, FilterMode::BandPass => v1, FilterMode::HighPass => x - v1 * (k as f32) - v2, FilterMode::Notch => x - v1 * (k as f32) };
-	assert!(y.left == out * 1.0 + x * 0.0, "output tap of the selected mode");
-	assert!(fx.ic1eq.left == v1 * 2.0 - s1 && fx.ic2eq.left == v2 * 2.0 - s2, "trapezoidal integrator update");
+	// within 1e-4 (values are of magnitude <= 40): a re-association of the same equations must not raise an alarm
+	let close = |a: f32, b: f32| (a - b).abs() <= 1.0e-4;
+	assert!(close(y.left, out), "output tap of the selected mode");
+	assert!(close(fx.ic1eq.left, v1 * 2.0 - s1) && close(fx.ic2eq.left, v2 * 2.0 - s2), "trapezoidal integrator update");
 	kani::cover!(x != 0.0 && s1 != 0.0, "w:non-trivial");
 	std::mem::forget(fx);
 }
